@@ -228,6 +228,31 @@ def _apply(scratch: Path, edits) -> bool:
                                 else ast.UnaryOp(op=ast.Not(), operand=t)
                             n.body, n.orelse = n.orelse, n.body
                     s2 = ast.unparse(ast.fix_missing_locations(tree)) + "\n"
+                elif e["transform"] == "swap_eq_operands":
+                    tree = ast.parse(s)
+                    for n in ast.walk(tree):
+                        if isinstance(n, ast.Compare) and len(n.ops) == 1 and isinstance(
+                                n.ops[0], (ast.Eq, ast.NotEq, ast.Is, ast.IsNot)):
+                            n.left, n.comparators = n.comparators[0], [n.left]
+                    s2 = ast.unparse(ast.fix_missing_locations(tree)) + "\n"
+                elif e["transform"] == "isinstance_tuple":
+                    tree = ast.parse(s)
+                    for n in ast.walk(tree):
+                        if isinstance(n, ast.Call) and isinstance(n.func, ast.Name) \
+                                and n.func.id == "isinstance" and len(n.args) == 2 \
+                                and isinstance(n.args[1], ast.BinOp) \
+                                and isinstance(n.args[1].op, ast.BitOr):
+                            parts = []
+
+                            def flat(x):
+                                if isinstance(x, ast.BinOp) and isinstance(x.op, ast.BitOr):
+                                    flat(x.left)
+                                    flat(x.right)
+                                else:
+                                    parts.append(x)
+                            flat(n.args[1])
+                            n.args[1] = ast.Tuple(elts=parts, ctx=ast.Load())
+                    s2 = ast.unparse(ast.fix_missing_locations(tree)) + "\n"
                 elif e["transform"] == "reverse_keywords":
                     tree = ast.parse(s)
                     for n in ast.walk(tree):
